@@ -115,6 +115,8 @@ func runC06(t *testing.T, planAny any, res *simnet.Result) {
 	p := planAny.(*C06Plan)
 	simnet.Bubble(t, func() {
 		w := simnet.NewWorld(res.Seed)
+		// seeded pauses inside the update handler (between the dedup check, the epoch check and the relay)
+		defer installYields(res.Seed, 0.3, "route.seen", "route.relay")()
 		m := simnet.NewMesh(w)
 		k := simnet.DefaultKnobs()
 		k.RouteUpdate = time.Duration(p.RouteUpdateS) * time.Second
@@ -265,7 +267,8 @@ func runC06(t *testing.T, planAny any, res *simnet.Result) {
 			t0 := w.Now()
 			wireBefore := w.WireLen()
 			_ = sp.SendRoute(u)
-			time.Sleep(sl.Cfg.Latency + 200*time.Microsecond)
+			// the handler may pause at its two yield points (up to 3 ms each)
+			time.Sleep(sl.Cfg.Latency + 7*time.Millisecond)
 			simnet.Quiesce()
 			t1 := w.Now()
 			after := x.Net().Status().KnownConnectionCosts
@@ -358,7 +361,7 @@ func runC06(t *testing.T, planAny any, res *simnet.Result) {
 		}
 		time.Sleep(k.MaxIdle + 5*time.Second + 4*k.RouteUpdate)
 		simnet.Quiesce()
-		c06History(w, m, sp.Name, maxHop, len(p.Nodes), res)
+		c06History(w, m, sp.Name, maxHop, len(p.Nodes), k.SeenExpire, res)
 		dumpWire(w, os.Getenv("VERIF_DEBUG"))
 		c06Final(m, sp.Name, res)
 		res.SimSeconds = w.Now().Seconds()
@@ -404,7 +407,7 @@ func c06Handshakes(w *simnet.World, x string) map[*simnet.WireRec]bool {
 }
 
 // c06History checks the relay discipline over the whole wire record.
-func c06History(w *simnet.World, m *simnet.Mesh, script string, maxHop time.Duration, n int, res *simnet.Result) {
+func c06History(w *simnet.World, m *simnet.Mesh, script string, maxHop time.Duration, n int, seenExpire time.Duration, res *simnet.Result) {
 	wire := w.Wire()
 	type key struct{ node, id string }
 	type arrival struct {
@@ -414,6 +417,7 @@ func c06History(w *simnet.World, m *simnet.Mesh, script string, maxHop time.Dura
 		tie  bool
 	}
 	firstArr := map[key]*arrival{}
+	_ = firstArr
 	type hsKey struct {
 		node, link string
 		gen        int
@@ -446,29 +450,29 @@ func c06History(w *simnet.World, m *simnet.Mesh, script string, maxHop time.Dura
 		}
 	}
 	sort.SliceStable(delivs, func(i, j int) bool { return delivs[i].at < delivs[j].at })
-	// The first routing message a node is handed on a fresh session is consumed as the
-	// handshake (it identifies the peer) and an update of a direct neighbour that does
-	// not list the receiver yet is a late initialisation request: neither is processed
-	// as a routing update, so neither counts as "the update arrived from there".
-	for _, dv := range delivs {
-		r, d := dv.r, dv.at
-		id := r.Route.UpdateID
-		hk := hsKey{r.To, r.Link, r.Gen}
-		if !handshakeSeen[hk] {
-			handshakeSeen[hk] = true
-			res.Add("probe_handshake_consumed", 1)
+	_ = handshakeSeen
+	// Which copy of an update a node processed first is recorded by the node itself: the yield point right after the
+	// dedup check is reached exactly once per (node, update), by the copy that passed it, and names the neighbour
+	// that copy came from.  (Inferring it from delivery times is wrong as soon as a session's goroutine is busy:
+	// a copy delivered earlier on one session can be processed after a copy delivered later on another.)
+	firstFrom := map[key]string{}
+	lastPass := map[key]time.Time{}
+	for _, v := range yieldVisits() {
+		if v.Kind != "route.seen" {
 			continue
 		}
-		if _, listed := r.Route.Connections[r.To]; r.Route.NodeID == r.From && !listed {
+		parts := strings.SplitN(v.Key, "|", 3)
+		if len(parts) != 3 {
 			continue
 		}
-		k := key{r.To, id}
-		a := firstArr[k]
-		switch {
-		case a == nil || d < a.at:
-			firstArr[k] = &arrival{at: d, link: r.Link, gen: r.Gen}
-		case d == a.at && (a.link != r.Link || a.gen != r.Gen):
-			a.tie = true
+		k := key{parts[0], parts[2]}
+		if lp, ok := lastPass[k]; ok && v.At.Sub(lp) < seenExpire {
+			// (after the dedup entry has expired a replay passes the dedup check again and is stopped by the epoch/sequence rule)
+			res.Violate("c06:processed-twice", "%s let update %s pass its dedup check twice within %v (dedup window %v)", k.node, k.id, v.At.Sub(lp), seenExpire)
+		}
+		lastPass[k] = v.At
+		if _, ok := firstFrom[k]; !ok {
+			firstFrom[k] = parts[1]
 		}
 	}
 	type skey struct {
@@ -494,11 +498,11 @@ func c06History(w *simnet.World, m *simnet.Mesh, script string, maxHop time.Dura
 					res.Violate("c06:relay-altered", "%s relayed update %s with altered content: %+v vs original %+v", r.From, id, r.Route, o)
 				}
 			}
-			a := firstArr[key{r.From, id}]
-			if a == nil {
-				res.Violate("c06:relay-without-receipt", "%s relayed update %s it never received", r.From, id)
-			} else if !a.tie && a.link == r.Link && a.gen == r.Gen {
-				res.Violate("c06:relayed-back", "%s relayed update %s (origin %s) back on the session it first arrived on (%s)", r.From, id, r.Route.NodeID, r.Link)
+			from, ok := firstFrom[key{r.From, id}]
+			if !ok {
+				res.Violate("c06:relay-without-receipt", "%s relayed update %s it never processed", r.From, id)
+			} else if from == r.To {
+				res.Violate("c06:relayed-back", "%s relayed update %s (origin %s) back to %s, the neighbour it came from", r.From, id, r.Route.NodeID, r.To)
 			}
 		}
 	}
